@@ -2,6 +2,7 @@ package main
 
 import (
 	"fmt"
+	"go/ast"
 	"go/constant"
 	"go/token"
 	"go/types"
@@ -253,6 +254,48 @@ func (c *SpecCtx) lookupIdent(name string) (Val, bool) {
 	return c.lookupGlobalName(name)
 }
 
+// evalBlock: the basic block at which the expression is evaluated (for scoping of local names).
+func (c *SpecCtx) evalBlock() *ssa.BasicBlock {
+	if c.block != nil {
+		return c.block
+	}
+	if c.f != nil && c.f.depth == 0 && c.f.vc.curBlk >= 0 && c.f.vc.curBlk < len(c.f.fn.Blocks) {
+		return c.f.fn.Blocks[c.f.vc.curBlk]
+	}
+	return nil
+}
+
+// dbgValue picks, among the SSA values that carried the source name, the latest one whose
+// definition dominates the evaluation point; without one, the most recent (legacy behaviour).
+func (c *SpecCtx) dbgValue(name string) ssa.Value {
+	vs := c.f.dbg[name]
+	if len(vs) == 0 {
+		return nil
+	}
+	if v := c.dbgDominating(name); v != nil {
+		return v
+	}
+	return vs[len(vs)-1]
+}
+
+func (c *SpecCtx) dbgDominating(name string) ssa.Value {
+	cur := c.evalBlock()
+	if cur == nil {
+		return nil
+	}
+	vs := c.f.dbg[name]
+	for i := len(vs) - 1; i >= 0; i-- {
+		ins, ok := vs[i].(ssa.Instruction)
+		if !ok {
+			return vs[i] // parameters dominate everything
+		}
+		if b := ins.Block(); b == cur || b.Dominates(cur) {
+			return vs[i]
+		}
+	}
+	return nil
+}
+
 func (c *SpecCtx) lookupLocal(name string) (Val, bool) {
 	// locals of the frame's function
 	if c.f != nil && c.fn == c.f.fn {
@@ -282,6 +325,48 @@ func (c *SpecCtx) lookupLocal(name string) (Val, bool) {
 				}
 			}
 		}
+		if cur := c.evalBlock(); cur != nil && c.block == nil && (len(found) > 1 || (len(found) >= 1 && len(c.f.dbg[name]) > 0)) {
+			// several definitions carry the name (reassignment): the visible one is the closest
+			// definition that dominates the evaluation point
+			var best ssa.Value
+			var bestBlk *ssa.BasicBlock
+			consider := func(v ssa.Value) {
+				ins, ok := v.(ssa.Instruction)
+				if !ok {
+					if best == nil {
+						best = v
+					}
+					return
+				}
+				b := ins.Block()
+				if b != cur && !b.Dominates(cur) {
+					return
+				}
+				if _, isAlloc := v.(*ssa.Alloc); isAlloc {
+					return
+				}
+				if bestBlk == nil || bestBlk.Dominates(b) {
+					best, bestBlk = v, b
+				}
+			}
+			for _, v := range keys {
+				if phi, ok := v.(*ssa.Phi); ok && phi.Comment == name {
+					if _, over := c.env[v]; !over {
+						consider(v)
+					}
+				}
+			}
+			for _, v := range c.f.dbg[name] {
+				if _, isPhi := v.(*ssa.Phi); !isPhi {
+					consider(v)
+				}
+			}
+			if best != nil {
+				if x, ok := c.f.env[best]; ok {
+					return x, true
+				}
+			}
+		}
 		if len(found) > 1 && c.block != nil {
 			// the visible definition is the closest one that dominates the evaluation point
 			var best *ssa.Phi
@@ -308,7 +393,7 @@ func (c *SpecCtx) lookupLocal(name string) (Val, bool) {
 			return found[0], true
 		}
 		if len(found) == 0 {
-			if v, ok := c.f.dbg[name]; ok {
+			if v := c.dbgValue(name); v != nil {
 				if x, ok := c.f.env[v]; ok {
 					return x, true
 				}
@@ -338,6 +423,27 @@ func (c *SpecCtx) lookupGlobalName(name string) (Val, bool) {
 	}
 	if e, ok := c.f.en.cs.Consts[name]; ok {
 		return c.eval(e), true
+	}
+	// constants declared inside the function under contract
+	if c.fn != nil && c.fn.Syntax() != nil && c.fn.Pkg != nil {
+		if info := c.f.en.tinfo[c.fn.Pkg.Pkg.Path()]; info != nil {
+			var found types.Object
+			ast.Inspect(c.fn.Syntax(), func(n ast.Node) bool {
+				if vs, ok := n.(*ast.ValueSpec); ok {
+					for _, id := range vs.Names {
+						if id.Name == name {
+							if o, ok := info.Defs[id].(*types.Const); ok {
+								found = o
+							}
+						}
+					}
+				}
+				return found == nil
+			})
+			if found != nil {
+				return c.objVal(found)
+			}
+		}
 	}
 	return Val{}, false
 }
@@ -676,11 +782,20 @@ func (c *SpecCtx) unifyNil(a, b Val) (Val, Val) {
 func (c *SpecCtx) evalBinary(x SBinary) Val {
 	switch x.Op {
 	case "&&":
-		return boolV(and(c.evalBool(x.X), c.evalBool(x.Y)))
+		if a := c.evalBool(x.X); a == "false" {
+			return boolV("false")
+		} else {
+			return boolV(and(a, c.evalBool(x.Y)))
+		}
 	case "||":
 		return boolV(or(c.evalBool(x.X), c.evalBool(x.Y)))
 	case "==>":
-		return boolV(implies(c.evalBool(x.X), c.evalBool(x.Y)))
+		// short-circuit on a statically false antecedent (site filters such as defined(x))
+		if a := c.evalBool(x.X); a == "false" {
+			return boolV("true")
+		} else {
+			return boolV(implies(a, c.evalBool(x.Y)))
+		}
 	case "<==>":
 		return boolV(eq(c.evalBool(x.X), c.evalBool(x.Y)))
 	}
@@ -1047,6 +1162,16 @@ func (c *SpecCtx) evalCall(x SCall) Val {
 			return c.f.en.mkVal(t, c.f.en.u.mkName(si))
 		}
 		return c.f.en.mkVal(t, app(c.f.en.u.mkName(si), ts...))
+	}
+	if x.Fn == "defined" { // defined(name): the local name is in scope at the evaluation point
+		if id, ok := x.Args[0].(SIdent); ok && c.f != nil {
+			if c.dbgDominating(id.Name) != nil {
+				return boolV("true")
+			}
+			return boolV("false")
+		}
+		c.errorf("defined takes a local name")
+		return boolV("false")
 	}
 	if x.Fn == "box" { // box(T, v)
 		tn := x.Args[0].String()
